@@ -17,7 +17,7 @@ META = {
     'functions': ['xrspatial.viewshed.viewshed', '_viewshed_cpu', '_viewshed_cpu_sweep', '_init_event_list', '_calc_event_pos', '_calculate_angle', '_calc_event_elev',
                   '_calculate_event_row_col', '_calc_event_grad', '_calc_dist_n_grad', '_get_vertical_ang', '_insert_into_tree', '_delete_from_tree', '_max_grad_in_status_struct',
                   '_find_max_value_within_key', '_left_rotate', '_right_rotate', '_rb_insert_fixup', '_rb_delete_fixup'],
-    'bounds': {'quick': 'whole function: 2x2 rasters with every observer cell, symbolic elevations / observer_elev / target_elev (>= 0), non-square cells, exhaustive; '
+    'bounds': {'quick': 'whole function: 2x2 rasters with every observer cell, symbolic elevations / observer_elev / target_elev (>= 0), non-square cells, exhaustive; whole function on 2x3 / 3x2 / 3x3 over a fixed terrain with one symbolic cell at every position for every observer, and two symbolic cells for 24 seeded (occluder, occluded) pairs of 2x3 / 3x2 (concrete observer / target offsets), exhaustive; '
                         'event generation: 3x3 and 2x4 rasters, every observer cell, symbolic elevations; status structure: 5 keys, every insert/delete history of <= 2 operations and a seeded set of '
                         'longer histories (<= 6 operations, deletions of two-children nodes included), symbolic gradients, query = brute force over the active nearer nodes',
                'thorough': 'whole function 2x3 / 3x2 under a path budget (not exhaustive); status structure every history of <= 3 operations over 5 keys and <= 4 over 4 keys'},
